@@ -25,8 +25,9 @@ def run_property(prop, tier='quick', overrides=None, quiet=False, only=None,
                        getattr(mod, 'FILES', [rel])):
                     R.error('parse', 'PARSE', rel, 'file parses', err)
         R.info['analysed'] = ix.stats()
-        from sa.helpers import set_index
+        from sa.helpers import set_index, UNFOLLOWED
         set_index(ix)
+        UNFOLLOWED.clear()
         mod.run(ix, R)
         if census:
             from sa.branches import census as branch_census
